@@ -151,7 +151,7 @@ Lemma parse_re_no_crash s : parse_re s <> Crash.
 Proof.
   unfold parse_re. pose proof (lex_no_crash s). destruct (lex s); cbn [rbind]; try discriminate; try congruence.
   destruct (parse_from _ _) as [cur stack lq lz|]; [|discriminate]. destruct stack; [|discriminate].
-  destruct (nested_rep _); discriminate.
+  destruct (nested_rep _ && _); discriminate.
 Qed.
 Lemma compile_no_crash t : compile t <> Crash.
 Proof.
